@@ -8,7 +8,7 @@ def fixbytes(n, name='value'):
 
 
 def run(prog, qual, args, kwargs=None, bind=None, unroll=1, may_raise=True, depth=8, budget=20000,
-        loop_hook=None, merge=False, unique=False):
+        loop_hook=None, merge=False, unique=False, record_slices=False):
     f = prog.func(qual)
     ip = Interp(prog, max_paths=budget)
     ip.while_unroll = unroll
@@ -16,6 +16,7 @@ def run(prog, qual, args, kwargs=None, bind=None, unroll=1, may_raise=True, dept
     ip.max_depth = depth
     ip.loop_hook = loop_hook
     ip.unique_opaque_calls = unique
+    ip.record_slices = record_slices
     if merge:
         ip.merge_loops = True
         ip.merge_ignore_actions = True
